@@ -2,7 +2,7 @@ from .core import BASE_TRUST
 
 META = {
     "category": "proof",
-    "text": "Lean 4 theorems: each parallel shape of lib/query (slot-wise Run callbacks, per-worker lists concatenated in worker order for filter/join, per-worker key maps merged for GROUP BY) equals a sequential specification for EVERY cutting of the record range into contiguous chunks, hence is independent of --cpu and of the schedule; the real cutting function RecordRange is regenerated from the source and proved to tile [0,len) in order (C13's recordRange_tiles). Tied to /repo by (a) the regenerated RecordRange + a model/impl comparison of worker numbers and ranges, (b) a direct law check on the implementation: the same program run at --cpu 1,2,3,4,8,16, twice each, on tables of 80k-1/80k/80k+1 rows must give identical result rows, order and written file bytes",
+    "text": "Lean 4 theorems: each parallel shape of lib/query (slot-wise Run callbacks, per-worker lists concatenated in worker order for filter/join, per-worker key maps merged for GROUP BY) equals a sequential specification for EVERY cutting of the record range into contiguous chunks, hence is independent of --cpu and of the schedule; the real cutting function RecordRange is regenerated from the source and proved to tile [0,len) in order (C13's recordRange_tiles). Tied to /repo by (a) the regenerated RecordRange + a model/impl comparison of worker numbers and ranges, (b) a direct law check on the implementation: the same program run at --cpu 1,2,3,4,8,16, twice each, on tables of 80k-1/80k/80k+1 rows must give identical result rows, order and written file bytes (22+ query shapes incl. joins driven by the short and by the long table, multi-analytic queries, user-defined aggregates / functions; 6 DML programs)",
     "design_ref": "DESIGN.md section 5, C12",
     "note": "trusted: Lean kernel; harness; the Go scheduler itself is outside the model, which is why the chunking/schedule is universally quantified in the theorems rather than sampled; the step from the Go closures to the three shapes is by reading (C13's extractor classifies every worker closure)",
     "technique": "Lean 4 machine-checked proof (chunk-independence / refinement to a sequential spec) + regenerated RecordRange + multi---cpu differential runs of the real implementation",
